@@ -233,11 +233,22 @@ impl Ser {
         } else {
             None
         };
+        // a doctype declaration for the document element (documents with an element, and element targets)
+        let doctype_ok = sub.kind == AKind::Elem || (sub.kind == AKind::Doc && gen::is_wf_document(&sub));
+        let doctype = if doctype_ok && rng.chance(1, 6) {
+            Some(if rng.bool() {
+                xot::output::xml::DocType::System { system: "urn:x:a.dtd".to_string() }
+            } else {
+                xot::output::xml::DocType::Public { public: "-//X//DTD a//EN".to_string(), system: "a.dtd".to_string() }
+            })
+        } else {
+            None
+        };
         let params = Parameters {
             indentation: if indent { Some(Indentation { suppress: ids(&mut xot, &suppress) }) } else { None },
             cdata_section_elements: ids(&mut xot, &cdata),
             declaration: decl.clone(),
-            doctype: None,
+            doctype: doctype.clone(),
             unescaped_gt,
         };
         let pdesc = format!(
@@ -251,7 +262,7 @@ impl Ser {
         let base = |what: String, text: &str| J::obj().set("tree", sub.to_json()).set("parameters", J::s(pdesc.clone())).set("output", J::s(trunc(text, 1200))).set("what", J::s(what));
         // one case in three (no declaration requested) takes the text from the token entry points instead:
         // the options must mean the same there
-        let via_tokens = decl.is_none() && rng.chance(1, 3);
+        let via_tokens = decl.is_none() && doctype.is_none() && rng.chance(1, 3);
         if via_tokens {
             ctx.count("serialised.via_token_entry_points");
         }
@@ -297,6 +308,33 @@ impl Ser {
                 ctx.violation("serialisation with options panicked", format!("C14/serialise/panic/{}", p.sig()), base(p.short(), ""));
                 return;
             }
+        };
+        // the doctype declaration: exactly one, in front of everything but the XML declaration; it is taken out again
+        // before the text goes back to the parser (which does not accept DTDs)
+        let text = if doctype.is_some() {
+            ctx.count("with_doctype");
+            let at = text.find("<!DOCTYPE");
+            let body_start = text.find("?>").filter(|_| text.starts_with("<?xml")).map(|i| i + 2).unwrap_or(0);
+            match at {
+                Some(i) if text[body_start..i].trim().is_empty() && text.matches("<!DOCTYPE").count() == 1 => {
+                    let end = text[i..].find('>').map(|j| i + j + 1).unwrap_or(text.len());
+                    let mut rest = text[end..].to_string();
+                    if rest.starts_with('\n') {
+                        rest.remove(0);
+                    }
+                    format!("{}{}", &text[..i], rest)
+                }
+                _ => {
+                    ctx.violation(
+                        "the requested doctype declaration is missing, repeated or not in front of the content",
+                        "C14/doctype/misplaced".to_string(),
+                        base(String::new(), &text),
+                    );
+                    return;
+                }
+            }
+        } else {
+            text
         };
         ctx.count(if indent { "serialised.indented" } else { "serialised.plain" });
         if !cdata.is_empty() {
@@ -388,10 +426,23 @@ impl Ser {
                 ctx.count("trees_with_empty_text_nodes");
             }
         }
+        // adjacent text nodes (consolidation off): "]]" at the end of one and ">" at the start of the next
+        let mut adjacent = false;
+        if rng.chance(1, 5) {
+            let mut n = 3;
+            split_text_nodes(&mut a, rng, &mut n);
+            if n < 3 {
+                adjacent = true;
+                ctx.count("trees_with_adjacent_text_nodes");
+            }
+        }
         if a.count() >= 3 {
             ctx.nontrivial(a.structural_hash() ^ rng.next_u64());
         }
         let mut xot = Xot::new();
+        if adjacent {
+            xot.set_text_consolidation(false);
+        }
         let built = match guard(|| build::build(&mut xot, &a, *rng.pick(&ROUTES), AttrStyle::Map)) {
             Ok(Ok(h)) => h,
             _ => {
@@ -720,14 +771,14 @@ impl Monitor for Ser {
     }
     fn rule(&self) -> String {
         match self.0 {
-            SW::C14 => "XML-representable trees (one in ten wrapped in 15-130 levels of unmixed nesting) with text concentrated on ']' / '>' runs, CR/LF/TAB, whitespace-only text, and xml:space in {preserve, default, other} at any depth x random subsets of the tree's element names as CDATA-section elements and as suppress list x unescaped_gt x declaration {none, plain, encoding + standalone} x indentation on/off, through serialize_xml_string or (one case in three) assembled from tokens() / pretty_tokens(), on documents, fragments and element subtrees: without indentation the reparse must be deep-equal; with indentation a whitespace diff must find only added whitespace-only text nodes, none inside mixed content, xml:space=preserve scope or a suppressed element. Non-trivial = tree >= 3 nodes; distinct by hash of (tree, parameters)".into(),
-            SW::C16 => "serialisable trees (one in eight wrapped in 15-130 levels of unmixed nesting, one in five with empty text nodes that only the API can create) and their element subtrees x {CDATA-section elements, unescaped_gt, suppress list} x {no normalizer, a normalizer that turns U+226E / U+FF06 / U+FB01 into other text}: concatenated tokens == string serialisation, pretty tokens with indentation / space / newline applied == pretty string, serialize_xml_write into a Vec and into a one-byte-per-call writer == string bytes, and outputs() == the per-node event sequence derived from the abstract tree and the scope model (top element's inherited bindings as a set). Non-trivial = tree >= 3 nodes; distinct by hash of (tree, parameters)".into(),
+            SW::C14 => "XML-representable trees (one in ten wrapped in 15-130 levels of unmixed nesting) with text concentrated on ']' / '>' runs, CR/LF/TAB, whitespace-only text, and xml:space in {preserve, default, other} at any depth x random subsets of the tree's element names as CDATA-section elements and as suppress list x unescaped_gt x declaration {none, plain, encoding + standalone} x doctype {none, SYSTEM, PUBLIC} x indentation on/off, through serialize_xml_string or (one case in three) assembled from tokens() / pretty_tokens(), on documents, fragments and element subtrees: without indentation the reparse must be deep-equal; with indentation a whitespace diff must find only added whitespace-only text nodes, none inside mixed content, xml:space=preserve scope or a suppressed element. Non-trivial = tree >= 3 nodes; distinct by hash of (tree, parameters)".into(),
+            SW::C16 => "serialisable trees (one in eight wrapped in 15-130 levels of unmixed nesting, one in five with empty text nodes and one in five with adjacent text nodes, which only the API can create) and their element subtrees x {CDATA-section elements, unescaped_gt, suppress list} x {no normalizer, a normalizer that turns U+226E / U+FF06 / U+FB01 into other text}: concatenated tokens == string serialisation, pretty tokens with indentation / space / newline applied == pretty string, serialize_xml_write into a Vec and into a one-byte-per-call writer == string bytes, and outputs() == the per-node event sequence derived from the abstract tree and the scope model (top element's inherited bindings as a set). Non-trivial = tree >= 3 nodes; distinct by hash of (tree, parameters)".into(),
         }
     }
     fn floors(&self, _tier: Tier) -> Vec<(&'static str, u64)> {
         match self.0 {
-            SW::C14 => vec![("reparsed_equal.plain", 10_000), ("reparsed_equal.indented", 10_000), ("whitespace_nodes_inserted", 10_000), ("with_cdata_section_elements", 5_000), ("with_declaration", 1_000), ("deep_chain_trees", 2_000), ("serialised.via_token_entry_points", 10_000)],
-            SW::C16 => vec![("tokens_equal_string", 10_000), ("pretty_tokens_equal_string", 10_000), ("writers_equal_string", 10_000), ("output_events_match", 10_000), ("deep_chain_trees", 2_000), ("trees_with_empty_text_nodes", 2_000), ("cases_with_a_changing_normalizer", 10_000)],
+            SW::C14 => vec![("reparsed_equal.plain", 10_000), ("reparsed_equal.indented", 10_000), ("whitespace_nodes_inserted", 10_000), ("with_cdata_section_elements", 5_000), ("with_declaration", 1_000), ("deep_chain_trees", 2_000), ("serialised.via_token_entry_points", 10_000), ("with_doctype", 5_000)],
+            SW::C16 => vec![("tokens_equal_string", 10_000), ("pretty_tokens_equal_string", 10_000), ("writers_equal_string", 10_000), ("output_events_match", 10_000), ("deep_chain_trees", 2_000), ("trees_with_empty_text_nodes", 2_000), ("cases_with_a_changing_normalizer", 10_000), ("trees_with_adjacent_text_nodes", 2_000)],
         }
     }
     fn assumptions(&self) -> Vec<String> {
